@@ -394,6 +394,53 @@ def r8_row_cut_siblings(ctx):
     if len(shapes) < 2:
         r.anchor_missing("splice calls in VaultFileWriter::update_secret / delete_secret (found %d)" % len(shapes))
         return
+    # contradiction rule on the other end of the range: if the two callers do not agree on
+    # what `tail.end` is (today: the new row's buffer length vs the file length), splice
+    # must not let it influence what is preserved — it may only use `tail.start`
+    ends = {}
+    for f in ws.find_fns(r"VaultFileWriter<.*>.*::(update_secret|delete_secret)$"):
+        body = cfg.code_body(ws, f)
+        defs = cfg.defs_of(body)
+        for i, t in idioms.real_calls(body):
+            if cname(t) != "splice" or len(t["args"]) < 3 or cfg.op_place(t["args"][2]) is None:
+                continue
+            l = cfg.place_local(cfg.op_place(t["args"][2]))
+            for _hop in range(6):
+                ds = defs.get(l, [])
+                if len(ds) == 1 and not ds[0][2] and ds[0][1].get("k") == "use" and cfg.op_place(ds[0][1]["ops"][0]):
+                    l = cfg.place_local(cfg.op_place(ds[0][1]["ops"][0]))
+                    continue
+                break
+            for (_bi, st, is_term) in defs.get(l, []):
+                if not is_term and st.get("k") == "agg" and "Range" in (st.get("adt") or "") and len(st["ops"]) > 1:
+                    ends[idioms.last_seg(f.root)] = idioms.render_expr(idioms.expr_tree(body, st["ops"][1], defs))
+    sp = ws.find_fns(r"VaultFileWriter::<.*>::splice$")
+    if sp and len(ends) == 2:
+        sb = cfg.code_body(ws, sp[0])
+        tl = [int(k_) for k_, v_ in sb.vars.items() if v_ == "tail" and k_.isdigit()]
+        uses_end = False
+        for blk in sb.blocks:
+            places = []
+            for st in blk["s"]:
+                if st.get("k") == "dead":
+                    continue
+                if st.get("p"):
+                    places.append(st["p"])
+                for o in st.get("ops", []) or []:
+                    if cfg.op_place(o):
+                        places.append(cfg.op_place(o))
+            for o in (blk.get("term") or {}).get("args", []) or []:
+                if cfg.op_place(o):
+                    places.append(cfg.op_place(o))
+            for p_ in places:
+                if cfg.place_local(p_) in tl and ("end" in cfg.place_fields(p_) or "." not in p_):
+                    uses_end = True
+        agree = ends["update_secret"] == ends["delete_secret"]
+        k2 = "sos_filesystem::vault_writer::VaultFileWriter|tail-end"
+        if uses_end and not agree:
+            r.violation(k2, cfg.loc(sb), "splice looks at the end of the `tail` range (or at the range as a whole, e.g. is_empty()), but its callers do not agree on what that end is (update_secret: %s, delete_secret: %s): for one of them the rows after the edited one are dropped" % (ends["update_secret"], ends["delete_secret"]), work=2)
+        else:
+            r.ok(k2, cfg.loc(sb), "splice uses only tail.start" if not uses_end else "callers agree on tail.end (%s)" % ends["update_secret"], work=2)
     (ea, la), (eb, lb) = shapes["update_secret"], shapes["delete_secret"]
     k = "sos_filesystem::vault_writer::VaultFileWriter|tail-start"
     if ea == eb:
